@@ -48,8 +48,7 @@ var fullAlphabet = []world.Template{
 func Spacings(tier string) []world.Spacing {
 	ss := []uint64{1000, 1024, 4096, 5000, 10000, 65536}
 	if tier == "thorough" {
-		ss = []uint64{2, 10, 16, 50, 64, 100, 128, 200, 250, 256, 500, 512, 1000, 1024, 2000, 2048, 2500, 4096, 5000, 8192, 10000, 16384,
-			20000, 32768, 50000, 65536, 100000, 1 << 20}
+		ss = []uint64{100, 128, 500, 512, 1000, 1024, 4096, 5000, 10000, 65536}
 	}
 	var out []world.Spacing
 	for _, s := range ss {
@@ -62,7 +61,7 @@ func Spacings(tier string) []world.Spacing {
 func FamiliesC03(tier string) []world.Family {
 	l2Len, fieldsLen, fullLen, spacedLen := 6, 3, 6, 4
 	if tier == "thorough" {
-		l2Len, fieldsLen, fullLen, spacedLen = 8, 4, 7, 5
+		l2Len, fieldsLen, fullLen, spacedLen = 7, 4, 7, 5
 	}
 	return []world.Family{
 		{ // sparse L2 stores: the short L2 histories under every L2 block numbering of Spacings
